@@ -131,7 +131,20 @@ MemberPairs ==
       [kind |-> "field", t |-> "SSExec", field |-> "m", a |-> BaseEvent("SSExec"),
        b |-> [BaseEvent("SSExec") EXCEPT !.m = <<<<"e1", <<40000, 0>>>>, <<"e2", <<25535, 65535>>>>, <<"e3", <<0, 0>>>>>>]] }
 
-Pairs == {p \in MutationPairs : WellFormed(p)} \cup ShiftPairs \cup WrapPairs \cup MemberPairs
+\* spelling pairs: the external tx hash is kept and used as the reporter wrote it (status record key, recorded on the
+\* transfer), so two spellings of one hash are two different reports (an identifier over a normalised hash merges them)
+SpellPairs ==
+    UNION { { [kind |-> "spell", t |-> t, field |-> "txh", note |-> "the same hex digits in lower and in upper case", chain |-> "ethereum",
+               a |-> [BaseEvent(t) EXCEPT !.txh = "raw:0xabcdef0123456789abcdef0123456789abcdef0123456789abcdef0123456789"],
+               b |-> [BaseEvent(t) EXCEPT !.txh = "raw:0xABCDEF0123456789ABCDEF0123456789ABCDEF0123456789ABCDEF0123456789"]],
+              [kind |-> "spell", t |-> t, field |-> "txh", note |-> "with and without the 0x prefix", chain |-> "ethereum",
+               a |-> [BaseEvent(t) EXCEPT !.txh = "raw:0xabcdef0123456789abcdef0123456789abcdef0123456789abcdef0123456789"],
+               b |-> [BaseEvent(t) EXCEPT !.txh = "raw:abcdef0123456789abcdef0123456789abcdef0123456789abcdef0123456789"]],
+              [kind |-> "spell", t |-> t, field |-> "txh", note |-> "a trailing blank", chain |-> "ethereum",
+               a |-> [BaseEvent(t) EXCEPT !.txh = "raw:0xabcdef0123456789abcdef0123456789abcdef0123456789abcdef0123456789"],
+               b |-> [BaseEvent(t) EXCEPT !.txh = "raw:0xabcdef0123456789abcdef0123456789abcdef0123456789abcdef0123456789 "]] } : t \in Types }
+
+Pairs == {p \in MutationPairs : WellFormed(p)} \cup ShiftPairs \cup WrapPairs \cup MemberPairs \cup SpellPairs
 
 \* ---- the model: one state per pair; the invariant is the property on the specification's identifier
 VARIABLE pair
